@@ -106,6 +106,7 @@ class Models:
         R(r'^core::slice::iter::<impl core::iter::IntoIterator for &\[.*\]>::into_iter$', m_iter_new)
         R(r'^<(core::slice::Iter<.*>|core::iter::\w+<.*>|core::ops::Range<usize>) as core::iter::(Iterator|IntoIterator|DoubleEndedIterator)>::'
           r'(rev|enumerate|copied|cloned|take|skip|into_iter|by_ref|next)(::<.*>)?$', m_iter_op)
+        R(r'^arch::all::memchr::has_zero_byte$', m_has_zero_byte)
         # Fn-trait shims for fn items: call the item
         R(r' as core::ops::(Fn|FnMut|FnOnce)<.*>>::(call|call_mut|call_once) - shim', m_fn_shim)
         # misc
@@ -160,6 +161,41 @@ class Models:
                 if vals[i] is None:
                     sv = ss.get(f['name'][1:])
                     vals[i] = TermV(('splat', sv.e)) if sv is not None else TermV(('vec', fresh('vec')))
+            return AdtV(tid, 0, vals)
+        if p in ('arch::all::memchr::One', 'arch::all::memchr::Two', 'arch::all::memchr::Three'):
+            # I-SWAR: v_i == s_i * (usize::MAX / 255)   (the needle byte repeated in every byte of a word)
+            K = ((1 << I.ptr_bits) - 1) // 255
+            fields = ty['variants'][0]['fields']
+            ss = {}
+            vals = [None] * len(fields)
+            for i, f in enumerate(fields):
+                if f['name'].startswith('s'):
+                    vals[i] = I.fresh_int(st, T[f['ty']], f['name'])
+                    ss[f['name'][1:]] = vals[i]
+            for i, f in enumerate(fields):
+                if vals[i] is None:
+                    sv = ss.get(f['name'][1:])
+                    vals[i] = IntV(sv.e * K) if sv is not None else I.fresh_int(st, T[f['ty']], f['name'])
+            return AdtV(tid, 0, vals)
+        if re.match(r'^arch::x86_64::avx2::memchr::(One|Two|Three)$', p):
+            # I-AVX2: the 128-bit and the 256-bit searcher hold the same needles
+            fields = ty['variants'][0]['fields']
+            first = I.fresh_of_type(st, fields[0]['ty'], name + '.' + fields[0]['name'], 1)
+            vals = [first]
+            for f in fields[1:]:
+                ft = T[f['ty']]
+                if isinstance(first, AdtV) and ft.get('path') == T[fields[0]['ty']].get('path') and first.fields is not None:
+                    ff = ft['variants'][0]['fields']
+                    sub = []
+                    for j, g in enumerate(ff):
+                        if T[g['ty']]['kind'] == 'int':
+                            sub.append(first.fields[j])
+                        else:
+                            sv = next((first.fields[k] for k, h in enumerate(ff) if T[h['ty']]['kind'] == 'int' and h['name'][1:] == g['name'][1:]), None)
+                            sub.append(TermV(('splat', sv.e)) if sv is not None else TermV(('vec', fresh('vec'))))
+                    vals.append(AdtV(f['ty'], 0, sub))
+                else:
+                    vals.append(I.fresh_of_type(st, f['ty'], name + '.' + f['name'], 1))
             return AdtV(tid, 0, vals)
         if p == 'arch::generic::memchr::Iter':
             # I-ITER: original_start <= start <= end, all inside one live haystack
@@ -260,6 +296,25 @@ class Models:
                     ok = isinstance(v, TermV) and isinstance(sv, IntV) and v.t[0] == 'splat' and st.store.entails_eq(v.t[1] - sv.e)
                     I.ob('TYINV', fr, loc, f'I-SPLAT {p.rsplit("::", 1)[1]}.{f["name"]} ({when})', ok,
                          '' if ok else f"field {f['name']} is not splat of its scalar sibling: {v}")
+        elif p in ('arch::all::memchr::One', 'arch::all::memchr::Two', 'arch::all::memchr::Three'):
+            K = ((1 << I.ptr_bits) - 1) // 255
+            fields = ty['variants'][0]['fields']
+            ss = {f['name'][1:]: val.fields[i] for i, f in enumerate(fields) if f['name'].startswith('s')}
+            for i, f in enumerate(fields):
+                if f['name'].startswith('v'):
+                    sv, v = ss.get(f['name'][1:]), val.fields[i]
+                    ok = isinstance(sv, IntV) and isinstance(v, IntV) and st.store.entails_eq(v.e - sv.e * K)
+                    I.ob('TYINV', fr, loc, f'I-SWAR {p.rsplit("::", 1)[1]}.{f["name"]} == splat({f["name"].replace("v", "s")}) ({when})', ok,
+                         '' if ok else f"field {f['name']} = {v} is not the needle byte repeated in every byte")
+        elif re.match(r'^arch::x86_64::avx2::memchr::(One|Two|Three)$', p):
+            a, b = val.fields[0], val.fields[1]
+            ok = isinstance(a, AdtV) and isinstance(b, AdtV) and a.fields is not None and b.fields is not None
+            if ok:
+                for x, y in zip(a.fields, b.fields):
+                    if isinstance(x, IntV) or isinstance(y, IntV):
+                        ok = ok and isinstance(x, IntV) and isinstance(y, IntV) and st.store.entails_eq(x.e - y.e)
+            I.ob('TYINV', fr, loc, f'I-AVX2 {p.rsplit("::", 1)[1]}: 128-bit and 256-bit searchers hold the same needles ({when})', ok,
+                 '' if ok else f"needles differ: {a} vs {b}")
         elif p == 'arch::generic::memchr::Iter':
             ptrs = [v for v in val.fields if isinstance(v, PtrV)]
             ok = len(ptrs) == 3 and len({q.r for q in ptrs}) == 1
@@ -317,6 +372,17 @@ class Models:
             I.ob('TYINV', fr, loc, f'UNION-PAIR {p.rsplit("::", 1)[1]} call/kind ({when})', ok, det)
 
     def term_binop(self, I, st, op, a, b, rty):
+        if op == 'BitXor':
+            def tm(x):
+                if isinstance(x, TermV):
+                    return x.t
+                if isinstance(x, IntV):
+                    return ('lin', st.store.nf(x.e))
+                return ('opaque', repr(x))
+            ta, tb = tm(a), tm(b)
+            if repr(tb) < repr(ta):
+                ta, tb = tb, ta
+            return TermV(('xor', ta, tb))
         return I.fresh_int(st, rty, 'tbin')
 
     def merge_terms(self, I, M, vals, stores):
@@ -325,12 +391,13 @@ class Models:
     def merge_ghost(self, I, states):
         g0 = states[0].ghost
         out = {}
-        # bytes memo: keep entries common to all states (same symbol)
-        for key in ('bytes', 'decomp'):
-            d0 = g0.get(key, {})
-            out[key] = {k: v for k, v in d0.items() if all(s.ghost.get(key, {}).get(k) == v for s in states[1:])}
-        p0 = g0.get('preds', {})
-        out['preds'] = {k: v for k, v in p0.items() if all(s.ghost.get('preds', {}).get(k) == v for s in states[1:])}
+        for key, d0 in g0.items():
+            if isinstance(d0, dict) and key not in ('search', 'spec_info'):
+                out[key] = {k: v for k, v in d0.items() if all(s.ghost.get(key, {}).get(k) == v for s in states[1:])}
+            elif key in ('search', 'spec_info'):
+                out[key] = d0        # set once at the root, identical on every path
+            elif all(s.ghost.get(key) == d0 for s in states[1:]):
+                out[key] = d0
         return out
 
     # ---- lane-set logic: nz(t) = "some lane of vector/mask term t is set"
@@ -345,6 +412,9 @@ class Models:
                 return
             preds[key] = pos
             st.ghost['preds'] = preds
+            if name == 'zerobyte' and not pos:
+                from . import e3
+                e3.on_zerobyte_false(I, st, term_key(arg, st.store))
             return
         t = nz_strip(term_key(arg, st.store))
         preds = dict(st.ghost.get('preds', {}))
@@ -354,6 +424,9 @@ class Models:
             return
         nz_record(preds, t, pos)
         st.ghost['preds'] = preds
+        if not pos:
+            from . import e3
+            e3.on_nz_false(I, st, nz_leaves(t))
         # a recorded-true or-tree whose leaves are all false is a contradiction
         for (n, tt), v in list(preds.items()):
             if n == 'nz' and v and nz_eval_struct(preds, tt) is False:
@@ -886,6 +959,16 @@ def mask_width(tm):
             if w:
                 return w
     return None
+
+
+def m_has_zero_byte(I, fr, st, t, args, key):
+    """axiom: has_zero_byte(x) iff some byte of x is zero (bit trick from 'Matters Computational'; trusted)"""
+    if not I.models.e3:
+        return None
+    a = args[0]
+    if isinstance(a, TermV):
+        return ret1(st, BoolV(('pred', True, 'zerobyte', a.t)))
+    return ret1(st, BoolV(('unk',)))
 
 
 def m_fn_shim(I, fr, st, t, args, key):
